@@ -84,6 +84,12 @@ Definition step (st : rstate) (op : list tok) : rstate * list tok :=
     else if name =? "drain_check" then
       let '(c2, s2, ms) := drain_rounds (decodable_of (rbad st)) 64 c s [] in
       (mkr c2 s2 (rbad st), flat_map res_msg_toks ms ++ [TS "st"] ++ st_toks c2)
+    else if name =? "extract" then
+      let '(c', s', ms) := extract_loop (decodable_of (rbad st)) 1000 c s [] in
+      (mkr c' s' (rbad st), map (fun m => TB m) ms ++ [TS "st"] ++ st_toks c')
+    else if name =? "drain_check_x" then
+      let '(c', s', ms) := extract_rounds (decodable_of (rbad st)) 64 c s [] in
+      (mkr c' s' (rbad st), map (fun m => TB m) ms ++ [TS "st"] ++ st_toks c')
     else bad
   | _ => bad
   end.
